@@ -1,6 +1,7 @@
 from abc import ABC, abstractmethod
 import getpass
 import sys, os, pickle
+from copy import copy
 import tempfile
 import types
 import re
@@ -450,22 +451,23 @@ class Lark(Serialize, Generic[_Return_T]):
         self._terminals_dict = {t.name: t for t in self.terminals}
 
         # If the user asked to invert the priorities, negate them all here.
-        if self.options.priority == 'invert':
-            # The alternatives of a rule share one RuleOptions object: negate each object once
-            for options in {id(rule.options): rule.options for rule in self.rules}.values():
-                if options.priority is not None:
-                    options.priority = -options.priority
-            for term in self.terminals:
-                term.priority = -term.priority
-        # Else, if the user asked to disable priorities, strip them from the
-        # rules and terminals. This allows the Earley parsers to skip an extra forest walk
-        # for improved performance, if you don't need them (or didn't specify any).
-        elif self.options.priority is None:
+        # The RuleOptions objects belong to the Grammar (which other Lark instances may have been, or will be,
+        # compiled from), and the alternatives of a rule share one object: rewrite a private copy of each.
+        if self.options.priority == 'invert' or self.options.priority is None:
+            rewritten = {}
             for rule in self.rules:
                 if rule.options.priority is not None:
-                    rule.options.priority = None
+                    if id(rule.options) not in rewritten:
+                        options = copy(rule.options)
+                        # If the user asked to invert the priorities, negate them all here.
+                        # Else (the user asked to disable priorities) strip them from the rules and terminals.
+                        # This allows the Earley parsers to skip an extra forest walk
+                        # for improved performance, if you don't need them (or didn't specify any).
+                        options.priority = -options.priority if self.options.priority == 'invert' else None
+                        rewritten[id(rule.options)] = options
+                    rule.options = rewritten[id(rule.options)]
             for term in self.terminals:
-                term.priority = 0
+                term.priority = -term.priority if self.options.priority == 'invert' else 0
 
         # TODO Deprecate lexer_callbacks?
         self.lexer_conf = LexerConf(
